@@ -8,7 +8,7 @@ fn main() {
         let s = a.replace("\\n", "\n");
         for imp in Impl::BOTH {
             let t0 = Instant::now();
-            let g = run_real(imp, &s, None, &V::Unit, 200000);
+            let g = run_real(imp, &s, None, &V::Unit, std::env::var("MAXSTEPS").ok().and_then(|x| x.parse().ok()).unwrap_or(200000));
             let out = format!("{:?}", g);
             println!("{:6} {:.3}s {}", imp.name(), t0.elapsed().as_secs_f64(), &out[..out.len().min(300)]);
         }
